@@ -858,6 +858,20 @@ func runLambda(x *core.Ctx) {
 				continue
 			}
 		}
+		// composition: the lambda read back from JSON is what other tools format and show to the
+		// user; its formatted text must still denote the same expression
+		var n4 *ast.LambdaNode
+		if n3.Expression != nil {
+			var b3 bytes.Buffer
+			(&n3).Format(&b3, "", false)
+			f3 := strings.TrimPrefix(strings.TrimSpace(b3.String()), "lambda:")
+			var err4 error
+			n4, err4 = ast.ParseLambda(f3)
+			if err4 != nil {
+				x.Violatef("json-then-format-rejected", "lambda read back from JSON formats to text that does not parse", text, "source: %s\nformatted after JSON round trip: %s\nerror: %v", text, f3, err4)
+				continue
+			}
+		}
 		// semantic equivalence on random scopes
 		e1, err1 := stateful.NewExpression(n1.Expression)
 		e2, err2 := stateful.NewExpression(n2.Expression)
@@ -895,6 +909,19 @@ func runLambda(x *core.Ctx) {
 				f3e, _ := stateful.NewExpression(n3.Expression)
 				if o3 := c04.EvalOutcome(f3e, sc); o3 != o1 {
 					x.Violatef("roundtrip-changes-meaning", "lambda read back from JSON evaluates differently", text, "source: %s -> %s\njson: %s -> %s", text, o1, jb, o3)
+					bad = true
+				}
+			}
+			if n4 != nil {
+				if f4e, err := stateful.NewExpression(n4.Expression); err == nil {
+					if o4 := c04.EvalOutcome(f4e, sc); o4 != o1 {
+						var b3 bytes.Buffer
+						(&n3).Format(&b3, "", false)
+						x.Violatef("json-then-format-changes-meaning", "lambda read back from JSON and formatted evaluates differently", text, "source: %s -> %s\nformatted after JSON round trip: %s -> %s", text, o1, b3.String(), o4)
+						bad = true
+					}
+				} else if o1 != "error" {
+					x.Violatef("json-then-format-changes-meaning", "lambda read back from JSON and formatted no longer compiles", text, "source: %s -> %s; error %v", text, o1, err)
 					bad = true
 				}
 			}
